@@ -280,6 +280,53 @@ theorem C16_select_after (isWord : Char → Bool) (lower : List Char → List Ch
   rw [mem_selectIdx]
   cases expr <;> simp
 
+/-- **after, per project.** `_modify_dag` visits the tasks in some order; whatever that order and whatever `after` strings
+the *other* tasks carry, a task without string gets no after-predecessor and a task `i` with string `e` gets exactly
+`afterPredsOf … i e`: the tasks whose `KeywordMatcher` satisfies the formula `e` denotes, minus `i` itself. The result
+lists the tasks in the order visited. -/
+theorem C16_after_per_task (isWord : Char → Bool) (lower : List Char → List Char) (tasks : List TaskInfo)
+    (afters : Nat → Option (List Char)) (order : List Nat) (res : List (Nat × List Nat))
+    (h : modifyDagAfter isWord lower tasks afters order = .ok res) :
+    res.map (·.1) = order ∧
+    ∀ p ∈ res, match afters p.1 with
+      | none => p.2 = []
+      | some e => afterPredsOf isWord lower tasks p.1 e = .ok p.2 := by
+  induction order generalizing res with
+  | nil => simp [modifyDagAfter] at h; subst h; simp
+  | cons i rest ih =>
+    rw [modifyDagAfter] at h
+    cases hstep : afterStep isWord lower tasks afters i with
+    | error e => simp [hstep] at h
+    | ok ps =>
+      simp only [hstep] at h
+      cases hr : modifyDagAfter isWord lower tasks afters rest with
+      | error e => simp [hr] at h
+      | ok r =>
+        simp only [hr, Except.ok.injEq] at h
+        subst h
+        obtain ⟨h1, h2⟩ := ih r hr
+        refine ⟨by simp [h1], ?_⟩
+        intro p hp
+        simp only [List.mem_cons] at hp
+        rcases hp with rfl | hp
+        · cases ha : afters i with
+          | none => simp only [afterStep, ha, Except.ok.injEq] at hstep ⊢; exact hstep.symm
+          | some e => simp only [afterStep, ha] at hstep ⊢; exact hstep
+        · exact h2 p hp
+
+/-- Which tasks these are: `j` is an after-predecessor of `i` iff `j ≠ i`, the string is not empty, and task `j`'s id /
+function attributes / marker names satisfy the formula (case-insensitive substring semantics of `-k`). -/
+theorem C16_after_preds_iff (isWord : Char → Bool) (lower : List Char → List Char) (tasks : List TaskInfo) (i : Nat)
+    (expr : List Char) (a : Ast) (hc : compile isWord expr = .ok a) :
+    ∃ ps, afterPredsOf isWord lower tasks i expr = .ok ps ∧
+      ∀ j, j ∈ ps ↔ j ≠ i ∧ expr ≠ [] ∧ ∃ t, tasks[j]? = some t ∧ eval (kwMatch lower (kwNames t)) a = true := by
+  obtain ⟨sel, hsel, hmem⟩ := (C16_select_after isWord lower expr tasks).2 a hc
+  refine ⟨sel.filter (fun j => j != i), by simp [afterPredsOf, hsel, Except.map], fun j => ?_⟩
+  simp only [List.mem_filter, hmem, bne_iff_ne, ne_eq]
+  constructor
+  · rintro ⟨⟨h1, h2⟩, h3⟩; exact ⟨h3, h1, h2⟩
+  · rintro ⟨h3, h1, h2⟩; exact ⟨⟨h1, h2⟩, h3⟩
+
 /-! ## Non-vacuity: the hypotheses are satisfiable and the model computes the documented results -/
 
 /-- `asciiWord` (ASCII letters, digits, underscore) satisfies the two assumptions on `\w`. -/
@@ -337,5 +384,16 @@ example : selectByKeyword asciiWord exLower "prep and not slow".toList [exTask, 
   decide +kernel
 example : selectByMark asciiWord "slow".toList [exTask, exTask2] = .ok (some [0]) := by decide +kernel
 example : selectByAfter asciiWord exLower "PREPARE".toList [exTask, exTask2] = .ok [0, 1] := by decide +kernel
+
+/-- Three tasks, two of them sharing the string `prep`, one of these matching it itself: the later declarer still has to
+follow the earlier, self-matching one — in whatever order the tasks are visited. -/
+def exAfterTasks : List TaskInfo :=
+  [{ name := "task_prep_a".toList, attrs := [], markers := [] }, { name := "task_prep_b".toList, attrs := [], markers := [] },
+   { name := "task_summary".toList, attrs := [], markers := [] }]
+def exAfters (i : Nat) : Option (List Char) := if i = 0 then none else some "prep".toList
+example : modifyDagAfter asciiWord exLower exAfterTasks exAfters [0, 1, 2] = .ok [(0, []), (1, [0]), (2, [0, 1])] := by
+  decide +kernel
+example : modifyDagAfter asciiWord exLower exAfterTasks exAfters [2, 1, 0] = .ok [(2, [0, 1]), (1, [0]), (0, [])] := by
+  decide +kernel
 
 end Pytask.SelExpr
